@@ -80,4 +80,6 @@ def run(ctx, proof):
                 if f:
                     ctx.violation(f"bounds differ from the LP optimum over superadditive completions: {f[:3]}",
                                   {"case": campaign.case_json(c), "failures": str(f[:5])})
+    import coqshard
+    coqshard.cross_check(ctx, cases, limit=8 if ctx.quick else 40)
     campaign.report_mismatches(ctx, mism, ORACLES, "compute_bounds (impl) = compute (Bounds.v model) on the same table")
